@@ -121,6 +121,45 @@ def _base(recipe):
         rng = np.random.default_rng(tseed)
         xs = [_tensor_coords(rng, n[d], L[d]) for d in range(dim)]
         return pp.TensorGrid(*xs)
+    if kind == "graded":
+        # strongly graded 1-D grid: geometric spacing, ratio between neighbouring cells
+        # 2..10 (boundary-layer meshes); smallest/largest cell down to ~1e-6
+        rng = np.random.default_rng(tseed)
+        q = float(rng.uniform(2.0, 10.0))
+        w = q ** np.arange(n[0])
+        if rng.random() < 0.5:
+            w = w[::-1]
+        x = np.concatenate([[0.0], np.cumsum(w)])
+        return pp.TensorGrid(x / x[-1] * L[0])
+    if kind == "nonconvex":
+        # nx x ny blocks, each a 3x3 patch split into a thin L-shaped hexagon (not
+        # star-shaped w.r.t. the mean of its face centres) and the complementary square;
+        # the orientation of the L within the block is random.  Consistently oriented.
+        nx, ny = n
+        rng = np.random.default_rng(tseed)
+        hx, hy = L[0] / (3 * nx), L[1] / (3 * ny)
+        gx, gy = np.meshgrid(np.arange(3 * nx + 1), np.arange(3 * ny + 1))
+        nodes = np.vstack([gx.ravel() * hx, gy.ravel() * hy, np.zeros(gx.size)])
+        idx = lambda i, j: j * (3 * nx + 1) + i  # noqa: E731
+        cells = []
+        for bj in range(ny):
+            for bi in range(nx):
+                i0, j0 = 3 * bi, 3 * bj
+                rot = int(rng.integers(0, 4))
+
+                def P(a, b, i0=i0, j0=j0, rot=rot):
+                    # rotate the local (a, b) in [0,3]^2 by rot * 90 degrees
+                    for _ in range(rot):
+                        a, b = 3 - b, a
+                    return idx(i0 + a, j0 + b)
+                # L: (0,0),(3,0),(3,1),(1,1),(1,3),(0,3) with all lattice nodes on its
+                # boundary inserted (conforming with the neighbours)
+                Lloop = [(0, 0), (1, 0), (2, 0), (3, 0), (3, 1), (2, 1), (1, 1), (1, 2),
+                         (1, 3), (0, 3), (0, 2), (0, 1)]
+                Sloop = [(1, 1), (2, 1), (3, 1), (3, 2), (3, 3), (2, 3), (1, 3), (1, 2)]
+                cells.append([P(a, b) for a, b in Lloop])
+                cells.append([P(a, b) for a, b in Sloop])
+        return poly_grid_from_cells(nodes, cells)
     if kind == "tri":
         return pp.StructuredTriangleGrid(np.array(n), np.array(L))
     if kind == "tet":
@@ -222,6 +261,11 @@ def planar(recipe) -> bool:
     return not recipe.get("perturb")
 
 
+def convex(recipe) -> bool:
+    """Are all cells convex by construction?"""
+    return recipe["kind"] != "nonconvex"
+
+
 def is_simplex(recipe) -> bool:
     return recipe["kind"] in ("tri", "tet", "delaunay") or recipe["dim"] == 1
 
@@ -270,12 +314,19 @@ KINDS = {1: ["cart", "tensor"],
          3: ["cart", "tensor", "tet", "prism"]}
 
 
+# opt-in kinds (never drawn unless named in ``kinds``): cells that are not convex /
+# extreme grading - only for checks whose property does not presuppose convex cells
+EXTRA_KINDS = {1: ["graded"], 2: ["nonconvex"], 3: []}
+
+
 def random_recipe(rng, dims=(1, 2, 3), kinds=None, max_cells=60, perturb=True,
                   affine=True, rigid=False, planar_only=False, simplex_only=False):
     """Draw a valid recipe.  ``rigid``: False | True | "embedded" (only dim<3)."""
     for _ in range(50):
         dim = int(rng.choice(list(dims)))
         ks = [k for k in KINDS[dim] if (kinds is None or k in kinds)]
+        if kinds is not None:
+            ks += [k for k in EXTRA_KINDS[dim] if k in kinds]
         if simplex_only:
             ks = [k for k in ks if k in ("tri", "tet", "delaunay")] or (KINDS[1] if dim == 1 else [])
         if not ks:
@@ -283,15 +334,19 @@ def random_recipe(rng, dims=(1, 2, 3), kinds=None, max_cells=60, perturb=True,
         kind = str(rng.choice(ks))
         if dim == 1:
             n = [int(rng.integers(1, 9))]
+            if kind == "graded":
+                n = [int(rng.integers(3, 8))]
         elif dim == 2:
             n = [int(rng.integers(1, 6)), int(rng.integers(1, 6))]
+            if kind == "nonconvex":
+                n = [int(rng.integers(1, 4)), int(rng.integers(1, 3))]
         else:
             n = [int(rng.integers(1, 4)), int(rng.integers(1, 4)), int(rng.integers(1, 3))]
         L = [float(np.round(rng.uniform(0.5, 3.0), 3)) for _ in range(dim)]
         r = {"kind": kind, "dim": dim, "n": n, "phys": L,
              "tseed": int(rng.integers(0, 2**31)), "perturb": 0.0, "pseed": 0,
              "affine": None, "rigid": None}
-        if perturb and rng.random() < 0.5 and kind != "delaunay":
+        if perturb and rng.random() < 0.5 and kind not in ("delaunay", "nonconvex", "graded"):
             if not (planar_only and dim == 3 and kind != "tet"):
                 r["perturb"] = float(np.round(rng.uniform(0.05, 0.2), 3))
                 r["pseed"] = int(rng.integers(0, 2**31))
@@ -307,6 +362,10 @@ def random_recipe(rng, dims=(1, 2, 3), kinds=None, max_cells=60, perturb=True,
         except Exception:
             continue
         if g.num_cells > max_cells:
+            continue
+        if kind == "nonconvex":
+            if np.all(g.cell_volumes > 0):
+                return r
             continue
         if valid_cells(g):
             return r
@@ -343,6 +402,25 @@ FLOOR = [
     {"kind": "tensor", "dim": 1, "n": [4], "phys": [1.0], "tseed": 1,
      "rigid": {"q": [0.3, -0.5, 0.7, 0.1], "t": [1.0, 1.0, 1.0]}},
 ]
+
+
+FLOOR_EXTRA = [
+    {"kind": "graded", "dim": 1, "n": [6], "phys": [1.0], "tseed": 1},
+    {"kind": "graded", "dim": 1, "n": [7], "phys": [2.0], "tseed": 4,
+     "rigid": {"q": [0.3, -0.5, 0.7, 0.1], "t": [1.0, 1.0, 1.0]}},
+    {"kind": "nonconvex", "dim": 2, "n": [1, 1], "phys": [3.0, 3.0], "tseed": 0},
+    {"kind": "nonconvex", "dim": 2, "n": [2, 2], "phys": [2.0, 3.0], "tseed": 3},
+    # seen "from behind": rotation by pi about the x-axis
+    {"kind": "nonconvex", "dim": 2, "n": [2, 1], "phys": [2.0, 1.0], "tseed": 5,
+     "rigid": {"q": [0.0, 1.0, 0.0, 0.0], "t": [0.0, 0.5, 1.0]}},
+    {"kind": "nonconvex", "dim": 2, "n": [1, 2], "phys": [1.0, 2.0], "tseed": 7,
+     "rigid": {"q": [0.2, 0.9, -0.3, 0.1], "t": [0.0, 0.0, 1.0]}},
+]
+
+
+def floor_extra(kinds=("graded", "nonconvex"), rigid=True):
+    return [copy.deepcopy(r) for r in FLOOR_EXTRA
+            if r["kind"] in kinds and (rigid or not r.get("rigid"))]
 
 
 def floor_recipes(dims=(1, 2, 3), kinds=None, rigid=True):
